@@ -20,9 +20,9 @@ def _ops(meth, *argtuples):
 
 LEN_STR = _ops("len", "0", "6", "7", "True", "'x'", ("0", "..."), ("6", "..."), ("7", "..."), ("...", "0"),
                ("...", "6"), ("...", "5"), ("0", "6"), ("1", "10"), ("7", "8"), ("6", "6"), ("0", "0"),
-               ("...", "None"), ("1.5", "..."))
+               ("...", "None"), ("1.5", "..."), ("...", "..."), ("Nil", "..."))
 LEN_LIST = _ops("len", "0", "1", "2", "3", "'x'", ("0", "..."), ("2", "..."), ("3", "..."), ("...", "0"),
-                ("...", "2"), ("...", "1"), ("0", "2"), ("2", "2"), ("1", "'x'"), ("...", "Nil"), ("True", "..."))
+                ("...", "2"), ("...", "1"), ("0", "2"), ("2", "2"), ("1", "'x'"), ("...", "Nil"), ("True", "..."), ("...", "..."), ("Nil", "2"))
 
 REFINEMENTS = {
     "int": (_ops("min", "0", "5", "6", "True", "-2**70", "1.5", "None") +
